@@ -2194,6 +2194,155 @@ def gen_stratapi(tree, out, report):
         report["stratification.py api"] = "untranslatable: internal " + type(e).__name__ + ": " + str(e)
 
 
+# ------------------------------------------------------------------------------------------------ model.py: run / get_runner / defaults (session)
+SESS_HEADER = """-- GENERATED by harness/translate/gen_rates.py from /repo (summer2/model.py: run, get_runner, defaults, ModelResults). Do not edit.
+import Summer.Model.Session
+set_option linter.unusedVariables false
+namespace Summer.Generated.SessionSrc
+open Summer.Session
+
+section
+variable {δ ν σ : Type}
+"""
+
+SESS_WANT = {
+    ("CompartmentalModel", "finalize"): (["self"], None, [
+        "if not self._finalized:\n    finalize_parameters(self)\n    self._finalized = True\n    if self.builder:\n        self._type_validators = self.builder.get_param_validators()"]),
+    ("CompartmentalModel", "get_runner"): (["self", "parameters", "dyn_params", "jit", "include_full_outputs"], "backend_args", [
+        "self._update_compartment_indices()",
+        "self.finalize()",
+        "self._set_backend('jax')",
+        "self._backend.prepare_structural()",
+        "from summer2.runner.jax.model_impl import build_run_model",
+        "parameters = expand_nested_dict(parameters)",
+        "input_params = self.get_input_parameters()",
+        "parameters = {k: v for k, v in parameters.items() if k in input_params}",
+        "if self.builder:\n    parameters = {k: self._type_validators[k](v) for k, v in parameters.items()}",
+        "jax_run_func, jax_runner_dict = build_run_model(self._backend, base_params=parameters, dyn_params=dyn_params, include_full_outputs=include_full_outputs, **backend_args)",
+        "if jit:\n    from jax import jit as jjit\n    jax_run_func = jjit(jax_run_func)",
+        "return ModelResults(self, jax_run_func, jax_runner_dict)"]),
+    ("CompartmentalModel", "run"): (["self", "parameters", "solver", "backend_args", "rebuild"], "kwargs", [
+        "parameters = parameters or {}",
+        "if rebuild:\n    self._runner = None",
+        "if self._runner is None:\n    self._update_compartment_indices()\n    self.finalize()\n    self._set_backend('jax', backend_args)\n"
+        "    self._backend.prepare_structural()\n    self._runner = self.get_runner(parameters, solver=solver, **kwargs)",
+        "self._runner.run(parameters=parameters)"]),
+    ("CompartmentalModel", "get_input_parameters"): (["self"], None, [
+        "self.finalize()",
+        "all_in_var = set(self.graph.get_input_variables())",
+        "all_in_var = all_in_var.union(set(self._do_tracker_graph.get_input_variables()))",
+        "return set([v.key for v in all_in_var if v.source == 'parameters'])"]),
+    ("CompartmentalModel", "set_default_parameters"): (["self", "parameters"], None, [
+        "self._runner = None",
+        "self._default_parameters = parameters"]),
+    ("CompartmentalModel", "get_default_parameters"): (["self"], None, [
+        "return self._default_parameters"]),
+    ("ModelResults", "__init__"): (["self", "model", "run_func", "runner_dict"], None, [
+        "self.model = model",
+        "self._run_func = run_func",
+        "self.function = run_func",
+        "self._input_params = model.get_input_parameters()",
+        "self._derived_outputs_idx_cache = None",
+        "self._runner_dict = runner_dict",
+        "self.impl_dict = runner_dict",
+        "self.default_parameters = model.get_default_parameters() or {}",
+        "self.ref_idx = model._get_ref_idx()"]),
+    ("ModelResults", "run"): (["self", "parameters", "filter", "expand", "ret_raw"], None, [
+        "if expand:\n    parameters = expand_nested_dict(parameters)",
+        "if filter:\n    parameters = {k: v for k, v in parameters.items() if k in self._input_params}\n    if self.model.builder:\n"
+        "        parameters = {k: self.model._type_validators[k](v) for k, v in parameters.items()}",
+        "base_params = self.default_parameters.copy()",
+        "base_params.update(parameters)",
+        "results = self._run_func(parameters=base_params)",
+        "self.outputs = np.array(results['outputs'])",
+        "self.derived_outputs = {k: np.array(v) for k, v in results['derived_outputs'].items()}",
+        "self.model.outputs = self.outputs",
+        "self.model.derived_outputs = self.derived_outputs",
+        "if ret_raw:\n    return results"]),
+}
+
+SESS_LEAN = """
+/-- what the closure returned by `model_impl.py::build_run_model(backend, base_params, dyn_params, solver=…)` captures (MODELLED, see
+`Model/Session.lean`): the non-dynamic main-graph parameters evaluated by `graph.freeze` (`none`: a value is missing), the dynamic
+main-graph parameters, and `do_base_params` -/
+def build_run_model (defn : Definition δ) (base_params : Dict ν) (dyn_params : Option (List String)) : Option (Dict ν × List String × Dict ν) :=
+  match collect base_params.get (frozenKeys defn dyn_params) with
+  | none => none
+  | some fr => some (fr, dynMain defn dyn_params, Dict.filterKeys defn.doParams base_params)
+
+/-- the closure `run_model(parameters)` (MODELLED): dynamic inputs from the call's parameters, the others frozen;
+`do_full_params = do_base_params.copy(); do_full_params.update(parameters)` -/
+def run_func (defn : Definition δ) (r : Runner ν σ) (base_params : Dict ν) : Outcome ν σ :=
+  let mainF := fun k => if r.dyn.contains k then base_params.get k else r.frozen.get k
+  let doFull := Dict.update r.doBase base_params
+  match collect mainF defn.mainParams with
+  | none => .error .mainKey
+  | some m =>
+    match collect doFull.get defn.doParams with
+    | none => .error .doKey
+    | some d => .ok { main := m, dos := d, solver := r.solver }
+
+/-- `model.py::CompartmentalModel.set_default_parameters` -/
+def set_default_parameters (self : Session δ ν σ) (parameters : Dict ν) : Session δ ν σ :=
+  { self with cached := none, defaults := some parameters }
+
+/-- `model.py::ModelResults.__init__`: `self.default_parameters = model.get_default_parameters() or {}` is a snapshot taken now -/
+def model_results_init (model : Session δ ν σ) (closure : Dict ν × List String × Dict ν) (solver : σ) : Runner ν σ :=
+  { frozen := closure.1, dyn := closure.2.1, doBase := closure.2.2, defaultsSnap := model.defaults.getD [], solver := solver }
+
+/-- `model.py::CompartmentalModel.get_runner(parameters, dyn_params, solver=…)`: finalises the model first, filters the parameters to the
+input parameters, builds the closure, wraps it in a `ModelResults`; `self._runner` is not touched.  Returns the model and the runner
+(`none`: building raised) -/
+def get_runner (self : Session δ ν σ) (parameters : Dict ν) (dyn_params : Option (List String)) (solver : σ) : Session δ ν σ × Option (Runner ν σ) :=
+  let input_params := self.defn.inputParams
+  let parameters := Dict.filterKeys input_params parameters
+  match build_run_model self.defn parameters dyn_params with
+  | none => ({ self with finalized := true }, none)
+  | some closure => ({ self with finalized := true }, some (model_results_init self closure solver))
+
+/-- `model.py::ModelResults.run(parameters)` (defaults `filter=True`): filter, infill from the snapshot of the defaults, call the closure,
+publish the results on the model when it returns -/
+def model_results_run (model : Session δ ν σ) (self : Runner ν σ) (parameters : Dict ν) : Session δ ν σ × Outcome ν σ :=
+  let parameters := Dict.filterKeys model.defn.inputParams parameters
+  let base_params := Dict.update self.defaultsSnap parameters
+  let results := run_func model.defn self base_params
+  (model.record results, results)
+
+/-- `model.py::CompartmentalModel.run(parameters, solver, rebuild)`: the `solver` argument is looked at only when a runner is built -/
+def run (self : Session δ ν σ) (parameters : Dict ν) (solver : σ) (rebuild : Bool) : Session δ ν σ × Outcome ν σ :=
+  let self := if rebuild then { self with cached := none } else self
+  match self.cached with
+  | none =>
+    match get_runner self parameters none solver with
+    | (self, none) => (self, .error .build)
+    | (self, some runner) =>
+      let self := { self with cached := some runner }
+      model_results_run self runner parameters
+  | some runner => model_results_run self runner parameters
+"""
+
+
+def gen_session(tree, out, report):
+    try:
+        classes = {n.name: {m.name: m for m in n.body if isinstance(m, ast.FunctionDef)} for n in tree.body if isinstance(n, ast.ClassDef)}
+        for (cname, fname), (args, kwarg, wanted) in SESS_WANT.items():
+            fn = classes.get(cname, {}).get(fname)
+            if fn is None:
+                raise Untranslatable(f"{cname}.{fname} not found")
+            if [a.arg for a in fn.args.args] != args or (fn.args.kwarg.arg if fn.args.kwarg else None) != kwarg:
+                raise Untranslatable(f"signature of {cname}.{fname}: " + str([a.arg for a in fn.args.args]))
+            body = [ast.unparse(st) for st in fn.body if not (isinstance(st, ast.Expr) and isinstance(st.value, ast.Constant))]
+            if body != wanted:
+                k = next((i for i, (a, b_) in enumerate(zip(body, wanted)) if a != b_), min(len(body), len(wanted)))
+                raise Untranslatable(f"{cname}.{fname}: statement {k} is not the expected text: " + (body[k][:160] if k < len(body) else "<missing>"))
+        out.append(SESS_LEAN)
+        report["model.py session"] = "ok"
+    except Untranslatable as e:
+        report["model.py session"] = "untranslatable: " + str(e)
+    except Exception as e:
+        report["model.py session"] = "untranslatable: internal " + type(e).__name__ + ": " + str(e)
+
+
 # ------------------------------------------------------------------------------------------------ util.py: binary search
 USRC = "summer2/functions/util.py"
 UHEADER = """-- GENERATED by harness/translate/gen_rates.py from /repo (summer2/functions/util.py). Do not edit.
@@ -2625,6 +2774,21 @@ def main():
     if old != stext:
         with open(spath, "w") as f:
             f.write(stext)
+    # model.py session
+    seout = [SESS_HEADER]
+    try:
+        with open(os.path.join(REPO, GSRC)) as f:
+            setree = ast.parse(f.read())
+        gen_session(setree, seout, report)
+    except Exception as e:
+        report["model.py session"] = "untranslatable: " + type(e).__name__ + ": " + str(e)
+    seout.append("end\nend Summer.Generated.SessionSrc\n")
+    setext = "\n".join(seout)
+    sepath = os.path.join(OUT, "SessionSrc.lean")
+    old = open(sepath).read() if os.path.exists(sepath) else None
+    if old != setext:
+        with open(sepath, "w") as f:
+            f.write(setext)
     # util.py
     uout = [UHEADER]
     try:
